@@ -4,6 +4,7 @@ import (
 	"bytes"
 	"fmt"
 	"net/http"
+	"reservoir/config"
 	"strconv"
 	"sync"
 	"testing"
@@ -30,6 +31,7 @@ type E2ECase struct {
 	BodyLen   int       `json:"body_len"`
 	PrimeGET  bool      `json:"prime_get"` // for non-GET methods: a storable GET of the same path is stored first
 	Location  bool      `json:"location"`
+	Runtime   bool      `json:"policy_set_at_runtime,omitempty"`
 	Via416    bool      `json:"via_416"` // GET only: the first request carries a Range that the origin answers with 416 and the opposite freshness headers; the proxy's retry gets the scripted answer
 }
 
@@ -93,8 +95,21 @@ var subE2E = ev.Register("storable-e2e",
 			}
 		})
 		defer org.Close()
-		env := px.New(px.Opts{Backend: c.Backend, IgnoreCC: c.Ignore, ForceDefault: c.Force, DefaultMaxAge: time.Hour})
+		// Runtime: the proxy starts under the opposite policy and is switched to the case's policy through the
+		// public update path before the first request (the store decision must follow the setting in force)
+		startIgnore, startForce := c.Ignore, c.Force
+		if c.Runtime {
+			startIgnore, startForce = !c.Ignore, !c.Force
+		}
+		env := px.New(px.Opts{Backend: c.Backend, IgnoreCC: startIgnore, ForceDefault: startForce, DefaultMaxAge: time.Hour})
 		defer env.Close()
+		if c.Runtime {
+			o.Class("policy-set-at-runtime")
+			if _, err := config.UpdatePartialFromConfig(env.Cfg, map[string]any{"proxy": map[string]any{"cache_policy": map[string]any{"ignore_cache_control": c.Ignore, "force_default_max_age": c.Force}}}); err != nil {
+				return ev.Failf("store-e2e.harness", "policy update refused: %v", err)
+			}
+			time.Sleep(5 * time.Millisecond)
+		}
 
 		now := time.Now()
 		fr := ref.ReadFreshness(c.Fresh.CC, c.Fresh.Expires, now)
@@ -256,6 +271,7 @@ func drawE2E(t *rapid.T) E2ECase {
 		PrimeGET:  rapid.Bool().Draw(t, "prime"),
 		Location:  rapid.Bool().Draw(t, "location"),
 		Via416:    rapid.IntRange(0, 4).Draw(t, "via416") == 0,
+		Runtime:   rapid.IntRange(0, 3).Draw(t, "runtime-policy") == 0,
 	}
 	if rapid.IntRange(0, 3).Draw(t, "plain-storable") == 0 {
 		// keep the simplest storable shapes well represented
